@@ -39,6 +39,10 @@ func (c *Ctx) eNilRule(rule string, fn *ssa.Function, control bool) {
 		if isNilConst(rv[0]) || isNilConst(rv[1]) {
 			continue
 		}
+		// `return helper(...)`: both results are the helper's, and the helper obeys the rule itself
+		if tupleOfENilHelper(p, rv[0], rv[1], 0) {
+			continue
+		}
 		bad++
 		tb := p.NewTerms(nil)
 		d := fmt.Sprintf("return with event %s and error %s: neither is the nil constant, so an event may be forwarded together with an error", tb.Of(rv[0]), tb.Of(rv[1]))
@@ -794,4 +798,33 @@ func onFailurePath(b *ssa.BasicBlock) bool {
 		}
 	}
 	return false
+}
+
+// tupleOfENilHelper: ev and err are results 0 and 1 of one call of a function of the module whose
+// every return carries a nil-constant event or a nil-constant error (or again such a tuple).
+func tupleOfENilHelper(p *Prog, ev, err ssa.Value, depth int) bool {
+	e0, ok0 := ev.(*ssa.Extract)
+	e1, ok1 := err.(*ssa.Extract)
+	if !ok0 || !ok1 || e0.Tuple != e1.Tuple || e0.Index != 0 || e1.Index != 1 || depth > 3 {
+		return false
+	}
+	call, ok := e0.Tuple.(*ssa.Call)
+	if !ok {
+		return false
+	}
+	sc := call.Call.StaticCallee()
+	if sc == nil || sc.Blocks == nil || !(p.InRepo(sc) || p.InCtl(sc)) {
+		return false
+	}
+	for _, ret := range Returns(sc) {
+		rv := RetVals(ret)
+		if len(rv) != 2 {
+			return false
+		}
+		if isNilConst(rv[0]) || isNilConst(rv[1]) || tupleOfENilHelper(p, rv[0], rv[1], depth+1) {
+			continue
+		}
+		return false
+	}
+	return true
 }
